@@ -332,20 +332,27 @@ def c17_pvalues(rec, rng, thorough):
     for it in range(n):
         m = 2 + it % 4
         amp = [8, 20, 40][it % 3]
-        rows = [[rng.randint(-amp, amp) for _ in range(4)] + [NINF] for _ in range(m)]
-        bk = it % 3
-        bn, bd = [([1, 1, 1, 1, 0], 4), ([4, 1, 1, 2, 0], 8), ([1, 3, 3, 1, 0], 8)][bk]
-        barg = None if bk == 0 else {DNA[j]: bn[j] / bd for j in range(5)}
+        protein = it % 5 == 4          # the protein arm of the bindings (uniform background, 20^M words)
+        if protein:
+            m = 2 + it % 2
+            rows = [[rng.randint(-amp, amp) for _ in range(20)] + [NINF] for _ in range(m)]
+            bk, bn, bd, barg = 0, [1] * 20 + [0], 20, None
+        else:
+            rows = [[rng.randint(-amp, amp) for _ in range(4)] + [NINF] for _ in range(m)]
+            bk = it % 3
+            bn, bd = [([1, 1, 1, 1, 0], 4), ([4, 1, 1, 2, 0], 8), ([1, 3, 3, 1, 0], 8)][bk]
+            barg = None if bk == 0 else {DNA[j]: bn[j] / bd for j in range(5)}
         den = bd ** m
+        kk = 21 if protein else 5
         att = {0}
         for r in rows:
-            att = {a + x for a in att for x in r[:4]}
+            att = {a + x for a in att for x in r[:kk - 1]}
         att = sorted(att)
         qs = sorted(set([att[0] - 4000, att[0] - 90, att[0] - 5, att[0], att[-1], att[-1] + 7, att[-1] + 4000] + [rng.choice(att) for _ in range(4)]))
-        e = dict(ev="py_pvalue", K=5, G=4, pssm=rows, bn=bn, bd=bd, den=den)
+        e = dict(ev="py_pvalue", K=kk, G=4, pssm=rows, bn=bn, bd=bd, den=den)
 
         def run():
-            pssm = make_pssm(rows, False, background=barg)
+            pssm = make_pssm(rows, protein, background=barg)
             pv = []
             for s4 in qs:
                 a = pssm.pvalue(s4 / 4)
@@ -366,7 +373,9 @@ def c17_pvalues(rec, rng, thorough):
         else:
             e.update(ret=r[0], msg=r[1], pv=[], inv=[], tsc=[])
         rec.emit(e)
-        rec.cls("pvalue")
+        rec.cls("pvalue_protein" if protein else "pvalue")
+        if protein:
+            continue                                   # no reverse complement of a protein matrix
 
         # history: p-values were asked on the forward matrix first, then on its reverse complement (a new
         # object with other cells and, under a strand-asymmetric background, another distribution)
@@ -685,6 +694,28 @@ def record_c18(rec, rng, thorough):
                                 lst = r[1]["list"]
                                 r[1]["list"] = [lst[0], lst[-1], len(lst)] + [1 if all(lst[i] >= lst[i + 1] for i in range(len(lst) - 1)) else 0]
                             emit_view(rec, "sf", [m], r, dict(C=0, R=0, K=k))
+                        # the survival function of a reverse complement taken AFTER the forward distribution was
+                        # requested, under a strand-asymmetric background: its view must show the table of a matrix
+                        # built afresh from the reverse-complemented scores
+                        if m >= 1:
+                            barg = {"A": 0.5, "C": 0.125, "T": 0.125, "G": 0.25, "N": 0.0}
+
+                            def rc_views():
+                                fwd = make_pssm(rows, False, background=barg)
+                                memoryview(fwd.score_distribution)
+                                rc = fwd.reverse_complement()
+                                cells = [[grid(x) for x in rc[i]] for i in range(len(rc))]
+                                fresh = make_pssm(cells, False, background=barg)
+                                a = memoryview(rc.score_distribution)
+                                b = memoryview(fresh.score_distribution)
+                                pick = lambda mv: [quant(x, 2 ** 20) for x in mv.tolist()[::37]]
+                                return dict(format=a.format, itemsize=a.itemsize, ndim=a.ndim, shape=list(a.shape), strides=list(a.strides),
+                                            list=pick(a)), pick(b)
+                            r = call(rc_views)
+                            if r[0] == "ok":
+                                emit_view(rec, "sf_same", r[1][1], ("ok", r[1][0]), dict(C=0, R=0, K=k, M=m))
+                            else:
+                                emit_view(rec, "sf_same", [], r, dict(C=0, R=0, K=k, M=m))
             else:
                 for name, f in [("countmatrix_empty", lambda: memoryview(lightmotif.CountMatrix({L[j]: [] for j in range(k)}, protein=protein))),
                                 ("scoringmatrix_empty_view", lambda: memoryview(lightmotif.ScoringMatrix({L[j]: [] for j in range(k)}, protein=protein)).tolist()),
@@ -697,9 +728,12 @@ def record_c18(rec, rng, thorough):
 # ----------------------------------------------------------------------------- entry point
 
 def main(prop, out, seed, thorough):
-    rng = random.Random(seed * 1000003 + (17 if prop == "C17" else 11 if prop == "C11" else 18))
+    rng = random.Random(seed * 1000003 + (17 if prop == "C17" else 11 if prop in ("C11", "C12", "C13") else 18))
     rec = Rec(out)
-    if prop == "C11":
+    if prop == "C14":
+        # loading through Python file objects (every chunking of the stream, short reads included)
+        c17_load(rec, rng, thorough)
+    elif prop in ("C11", "C12", "C13"):
         # the p-value half of the bindings only (same events, same trace specification as C17)
         c17_pvalues(rec, rng, thorough)
     elif prop == "C17":
